@@ -33,6 +33,13 @@ def run(ctx) -> None:
     # R7: the flags a regex is generated under are the rule's own
     from ._matchrules import compiled_with_own_config
     compiled_with_own_config(ctx, "C01.R7.compiled-with-own-config")
+    from ._matchrules import flags_end_to_end
+    from ..models import Sym
+    flags_end_to_end(ctx, "C01.R7.flags-end-to-end", [
+        ("two instructions with operands", [{Sym("M1"): [Sym("O1"), Sym("O2")]}, Sym("M2"), {Sym("M3"): [Sym("O3")]}])])
+    # R8: the listing the verdict is about is the file's text as Python's text mode reads it
+    from ._matchrules import assembly_text_unmodified
+    assembly_text_unmodified(ctx, "C01.R8.listing-text-unmodified")
     # R4: YAML keys -> stored flags
     I = make_interp(ctx.p)
     for mn in (None, True, False):
